@@ -347,6 +347,78 @@ func sx(v uint64, w int) int64 {
 	return int64(v<<s) >> s
 }
 
+func evalBin(op Op, a, c uint64, w int) uint64 {
+	var r uint64
+	switch op {
+	case OpAdd:
+		r = a + c
+	case OpSub:
+		r = a - c
+	case OpMul:
+		r = a * c
+	case OpUDiv:
+		if c == 0 {
+			r = mask(w)
+		} else {
+			r = a / c
+		}
+	case OpURem:
+		if c == 0 {
+			r = a
+		} else {
+			r = a % c
+		}
+	case OpSDiv:
+		sa, sc := sx(a, w), sx(c, w)
+		if sc == 0 {
+			if sa >= 0 {
+				r = mask(w)
+			} else {
+				r = 1
+			}
+		} else if sc == -1 {
+			r = uint64(-sa)
+		} else {
+			r = uint64(sa / sc)
+		}
+	case OpSRem:
+		sa, sc := sx(a, w), sx(c, w)
+		if sc == 0 {
+			r = a
+		} else if sc == -1 {
+			r = 0
+		} else {
+			r = uint64(sa % sc)
+		}
+	case OpBAnd:
+		r = a & c
+	case OpBOr:
+		r = a | c
+	case OpBXor:
+		r = a ^ c
+	case OpShl:
+		if c >= uint64(w) {
+			r = 0
+		} else {
+			r = a << c
+		}
+	case OpLShr:
+		if c >= uint64(w) {
+			r = 0
+		} else {
+			r = a >> c
+		}
+	case OpAShr:
+		if c >= uint64(w) {
+			c = uint64(w - 1)
+		}
+		r = uint64(sx(a, w) >> c)
+	default:
+		panic("sym.Bin: bad op")
+	}
+	return r & mask(w)
+}
+
 // Bin builds an arithmetic / bitwise binary operation.
 func (b *Builder) Bin(op Op, x, y *Term) *Term {
 	if x.W != y.W {
@@ -354,76 +426,7 @@ func (b *Builder) Bin(op Op, x, y *Term) *Term {
 	}
 	w := x.W
 	if x.IsConst() && y.IsConst() {
-		a, c := x.Val, y.Val
-		var r uint64
-		switch op {
-		case OpAdd:
-			r = a + c
-		case OpSub:
-			r = a - c
-		case OpMul:
-			r = a * c
-		case OpUDiv:
-			if c == 0 {
-				r = mask(w)
-			} else {
-				r = a / c
-			}
-		case OpURem:
-			if c == 0 {
-				r = a
-			} else {
-				r = a % c
-			}
-		case OpSDiv:
-			sa, sc := sx(a, w), sx(c, w)
-			if sc == 0 {
-				if sa >= 0 {
-					r = mask(w)
-				} else {
-					r = 1
-				}
-			} else if sc == -1 {
-				r = uint64(-sa)
-			} else {
-				r = uint64(sa / sc)
-			}
-		case OpSRem:
-			sa, sc := sx(a, w), sx(c, w)
-			if sc == 0 {
-				r = a
-			} else if sc == -1 {
-				r = 0
-			} else {
-				r = uint64(sa % sc)
-			}
-		case OpBAnd:
-			r = a & c
-		case OpBOr:
-			r = a | c
-		case OpBXor:
-			r = a ^ c
-		case OpShl:
-			if c >= uint64(w) {
-				r = 0
-			} else {
-				r = a << c
-			}
-		case OpLShr:
-			if c >= uint64(w) {
-				r = 0
-			} else {
-				r = a >> c
-			}
-		case OpAShr:
-			if c >= uint64(w) {
-				c = uint64(w - 1)
-			}
-			r = uint64(sx(a, w) >> c)
-		default:
-			panic("sym.Bin: bad op")
-		}
-		return b.BV(r, w)
+		return b.BV(evalBin(op, x.Val, y.Val, w), w)
 	}
 	switch op {
 	case OpAdd:
@@ -704,8 +707,7 @@ func Eval(t *Term, m map[string]uint64) uint64 {
 			r = (a(0) >> t.Val) & mask(t.W)
 		default:
 			// binary arithmetic: reuse constant folder
-			bb := NewBuilder()
-			r = bb.Bin(t.Op, bb.BV(a(0), t.W), bb.BV(a(1), t.W)).Val
+			r = evalBin(t.Op, a(0), a(1), t.W)
 		}
 		memo[t] = r
 		return r
